@@ -1095,6 +1095,9 @@ func (e *UtlsPaddingExtension) UnmarshalJSON(b []byte) error {
 	if jsonObj.Length == 0 {
 		e.GetPaddingLen = BoringPaddingStyle
 	} else {
+		if jsonObj.Length > 0xffff {
+			return errors.New("padding length does not fit the 16-bit extension length")
+		}
 		e.PaddingLen = int(jsonObj.Length)
 		e.WillPad = true
 	}
